@@ -1,11 +1,11 @@
 SPECIFICATION TSpec
 CONSTANTS
-  Scenarios = {"local", "remote", "localfar", "contest", "claim", "success", "breach", "coop", "shift", "rshift"}
+  Scenarios = {"local", "remote", "localfar", "contest", "rcontest", "claim", "success", "breach", "coop", "shift", "rshift", "alocal", "aremote", "acontest", "arcontest", "aclaim", "asuccess", "tlocal", "tremote", "tcontest", "trcontest", "tclaim", "tsuccess"}
   MaxCrashes = 99
   F8Fixed = TRUE
   F9Fixed = FALSE
   FccFixed = TRUE
   CommitBeforeCheckpoint = FALSE
   EnvAtomic = FALSE
-INVARIANTS ConformLog ConformExt ResolvedOnlyWhenEmpty MarkedOnlyWhenResolved NoPendingCloseWithEmptyLog UpstreamConsistent
+INVARIANTS ConformLog ConformExt ResolvedOnlyWhenEmpty MarkedOnlyWhenResolved NoPendingCloseWithEmptyLog UpstreamConsistent SweepsSignable
 CHECK_DEADLOCK TRUE
